@@ -152,7 +152,9 @@ class Divergence(RuntimeError):
 class CoopScheduler:
     """Owns all CThreads created while it is installed.  One execution = one call of run()."""
 
-    def __init__(self, trace_files, choices=(), max_steps=200000):
+    def __init__(self, trace_files, choices=(), max_steps=2000000, delay_mode=False):
+        self.delay_mode = delay_mode
+        self.delayed = []  # delay-bounded scheduling: threads skipped once go to the end of the canonical order
         self.trace_files = tuple(trace_files)
         self.prefix = list(choices)
         self.threads = []
@@ -163,6 +165,8 @@ class CoopScheduler:
         self.max_steps = max_steps
         self.steps = 0
         self.error = None
+        self.last = None
+        self.unjoined = 0
 
     # --- API used by CThread
     def register(self, t):
@@ -174,27 +178,44 @@ class CoopScheduler:
         self.baton.release()
         t.sem.acquire()
 
-    def drive(self):
-        """run all started, unfinished threads to completion under the schedule"""
-        last = None
+    def drive(self, until=None, record=True):
+        """run started, unfinished threads under the schedule: until thread `until` has finished (join semantics: the
+        caller -- the main thread, which runs atomically between its joins -- resumes as soon as the thread it waits for
+        is done, whatever else is still unfinished), or, with until=None, until all have finished.  record=False
+        (clean-up after the function under test has returned): default choices only, no decision points."""
+        last = self.last
         while True:
+            if until is not None and until.finished:
+                break
             enabled = [t.cid for t in self.threads if t.started and not t.finished]
             if not enabled:
                 break
-            # canonical order: running thread first if still enabled, then ascending ids
+            # canonical order: running thread first if still enabled (no preemption by default), then the thread the
+            # caller waits for, then ascending ids
+            order = []
             if last in enabled:
-                order = [last] + [c for c in enabled if c != last]
-            else:
-                order = enabled
-            k = len(self.taken)
-            if k < len(self.prefix):
-                ch = self.prefix[k]
-                if ch >= len(order):
-                    raise Divergence("replayed choice %d out of range at decision %d (enabled %r)" % (ch, k, order))
+                order.append(last)
+            if until is not None and until.cid in enabled and until.cid not in order:
+                order.append(until.cid)
+            order += [c for c in enabled if c not in order]
+            if self.delay_mode and self.delayed:
+                order = [c for c in order if c not in self.delayed] + [c for c in self.delayed if c in order]
+            if record:
+                k = len(self.taken)
+                if k < len(self.prefix):
+                    ch = self.prefix[k]
+                    if ch >= len(order):
+                        raise Divergence("replayed choice %d out of range at decision %d (enabled %r)" % (ch, k, order))
+                else:
+                    ch = 0
+                self.points.append(dict(enabled=order, running=last if last in enabled else None))
+                self.taken.append(ch)
+                if self.delay_mode and ch:
+                    if ch != 1:
+                        raise Divergence("delay mode knows the choices 0 (default) and 1 (delay the default thread) only")
+                    self.delayed.append(order[0])
             else:
                 ch = 0
-            self.points.append(dict(enabled=order, running=last if last in enabled else None))
-            self.taken.append(ch)
             cid = order[ch]
             t = self.threads[cid]
             last = cid
@@ -205,6 +226,7 @@ class CoopScheduler:
             self.baton.acquire()
             if t.exc is not None and self.error is None:
                 self.error = t.exc
+            self.last = last
 
 
 _ACTIVE = None
@@ -252,9 +274,11 @@ class CThread:
         self._t.start()
 
     def join(self, timeout=None):
-        # the first join drives every started thread to completion under the schedule
+        # the caller waits for THIS thread only: other threads may still be unfinished when it resumes
+        if not self.started:
+            raise RuntimeError("cannot join thread before it is started")
         if not self.finished:
-            self.sch.drive()
+            self.sch.drive(until=self)
         self._t.join()
 
 
@@ -279,6 +303,48 @@ class use_threads:
         _ACTIVE = None
 
 
+def explore_delays(fn, modules, trace_files, bound=1, cap=5000, free_only=False):
+    """Delay-bounded exploration (Emmi, Qadeer, Rakamaric 2011) for models with many threads: the scheduler is the
+    deterministic canonical one; a *delay* skips the thread it would run next and moves it to the end of the order.  All
+    schedules with at most `bound` delays are enumerated (free_only: delays only where no thread is running, i.e. at
+    thread boundaries).  Returns (list of (choices, result, unjoined), stats)."""
+    results = []
+    stats = dict(executions=0, capped=False, max_decisions=0, max_threads=0, max_unjoined=0)
+
+    def run(prefix):
+        s = CoopScheduler(trace_files, prefix, delay_mode=True)
+        with use_threads(s, modules):
+            r = fn()
+            s.unjoined = sum(1 for t in s.threads if t.started and not t.finished)
+            s.drive(record=False)
+        if s.error is not None:
+            raise s.error
+        if len(s.taken) < len(prefix):
+            raise Divergence("execution ended before the replayed prefix was consumed")
+        stats["executions"] += 1
+        stats["max_decisions"] = max(stats["max_decisions"], len(s.taken))
+        stats["max_threads"] = max(stats["max_threads"], len(s.threads))
+        stats["max_unjoined"] = max(stats["max_unjoined"], s.unjoined)
+        return s, r
+
+    def rec(prefix, used):
+        if stats["executions"] >= cap:
+            stats["capped"] = True
+            return
+        s, r = run(prefix)
+        results.append((list(s.taken), r, s.unjoined))
+        if used >= bound:
+            return
+        for i in range(len(prefix), len(s.points)):
+            p = s.points[i]
+            if len(p["enabled"]) < 2 or (free_only and p["running"] is not None):
+                continue
+            rec(list(s.taken[:i]) + [1], used + 1)
+
+    rec([], 0)
+    return results, stats
+
+
 def explore_threads(fn, modules, trace_files, bound=1, cap=5000):
     """Depth-first enumeration of all schedules of fn() with at most `bound` preemptions.
 
@@ -293,6 +359,11 @@ def explore_threads(fn, modules, trace_files, bound=1, cap=5000):
         s = CoopScheduler(trace_files, prefix)
         with use_threads(s, modules):
             r = fn()
+            # threads the function under test has not waited for: counted, then run to completion (clean-up only; the
+            # result was taken when the function returned)
+            s.unjoined = sum(1 for t in s.threads if t.started and not t.finished)
+            s.drive(record=False)
+        stats["max_unjoined"] = max(stats.get("max_unjoined", 0), s.unjoined)
         if s.error is not None:
             raise s.error
         if len(s.taken) < len(prefix):
